@@ -15,8 +15,8 @@ Two layers:
 * **traces** (`Tr`, `Phase`, `Plan`): what a task sends before its channel closes is a list of
   chunks followed by at most one `Err` (a `try_stream` ends after its first error); what the
   parent's `for_await` loop does with it.  Faults (hook H4, `exec.chunk`) sit in the task's output
-  loop: at item index `k` the task either sends `Err` and stops (`error`) or dies (`panic`, which
-  only closes the channel — nobody awaits the `JoinHandle`).
+  loop: at item index `k` the task either sends `Err` and stops (`error`) or panics (`panic`: caught by
+  `forward_panic`, which sends `Err(operator panicked)`; before that repair the channel just closed).
 
 Core Lean only.
 -/
@@ -51,7 +51,10 @@ def applyFault {α : Type} (ft : Option Fault) (t : Tr α) : Tr α :=
     if f.k < t.items then
       match f.kind with
       | .error => ⟨t.chunks.take f.k, some 0⟩      -- item k replaced by Err, then the task returns
-      | .panic => ⟨t.chunks.take f.k, none⟩        -- task dies: channel closes, nothing else
+      -- the task panics: `forward_panic` (since /repo "fix: a panic inside an operator task …")
+      -- catches it and sends `Err(operator panicked)` before the channel closes.  (Before that
+      -- fix this was `⟨t.chunks.take f.k, none⟩`: the channel just closed.)
+      | .panic => ⟨t.chunks.take f.k, some 2⟩
     else t
 
 /-- One `#[for_await] for chunk in child { … }` loop over one child.
@@ -153,37 +156,20 @@ def collect {α : Type} (t : Tr α) : Except Nat (List α) :=
 
 def Plan.run {α : Type} (p : Plan α) : Except Nat (List α) := collect p.tr
 
-/-- Only `error` faults anywhere. -/
-def Plan.NoPanic {α : Type} : Plan α → Prop
-  | .leaf ft _ => ∀ f, ft = some f → f.kind = .error
-  | .unary ft _ c => (∀ f, ft = some f → f.kind = .error) ∧ c.NoPanic
-  | .binary ft _ l r => (∀ f, ft = some f → f.kind = .error) ∧ l.NoPanic ∧ r.NoPanic
-
 /-- A loop that never `break`s (every executor but `limit`). -/
 def Phase.NoStop {σ α : Type} (ph : Phase σ α) : Prop :=
   (∀ s, ph.stopBefore s = false) ∧ (∀ s, ph.stopAfter s = false)
 
-/-- An `error` fault that fires at some node, with every task between it and the root unfaulted
-and reading its children to the end. -/
+/-- A fault (of either kind) that fires at some node, with every task between it and the root
+unfaulted and reading its children to the end. -/
 def Plan.ErrHit {α : Type} : Plan α → Prop
-  | .leaf ft out => ∃ k, ft = some ⟨k, .error⟩ ∧ k < out.items
+  | .leaf ft out => ∃ k kd, ft = some ⟨k, kd⟩ ∧ k < out.items
   | .unary ft o c =>
-      (∃ k, ft = some ⟨k, .error⟩ ∧ k < (o.exec c.tr).items) ∨
+      (∃ k kd, ft = some ⟨k, kd⟩ ∧ k < (o.exec c.tr).items) ∨
       (ft = none ∧ o.ph.NoStop ∧ c.ErrHit)
   | .binary ft o l r =>
-      (∃ k, ft = some ⟨k, .error⟩ ∧ k < (o.exec l.tr r.tr).items) ∨
+      (∃ k kd, ft = some ⟨k, kd⟩ ∧ k < (o.exec l.tr r.tr).items) ∨
       (ft = none ∧ o.phL.NoStop ∧ o.phR.NoStop ∧ (l.ErrHit ∨ r.ErrHit))
-
-/-- No operator fails by itself and only `panic` faults are armed. -/
-def Phase.NoFail {σ α : Type} (ph : Phase σ α) : Prop := ∀ s c, ∃ r, ph.onChunk s c = .ok r
-
-def Plan.OnlyPanics {α : Type} : Plan α → Prop
-  | .leaf ft out => (∀ f, ft = some f → f.kind = .panic) ∧ out.fin = none
-  | .unary ft o c =>
-      (∀ f, ft = some f → f.kind = .panic) ∧ o.ph.NoFail ∧ (∀ s, ∃ r, o.onEnd s = .ok r) ∧ c.OnlyPanics
-  | .binary ft o l r =>
-      (∀ f, ft = some f → f.kind = .panic) ∧ o.phL.NoFail ∧ o.phR.NoFail ∧
-      (∀ s, ∃ r, o.onEnd s = .ok r) ∧ l.OnlyPanics ∧ r.OnlyPanics
 
 /-! ### DML statements: `InsertExecutor` / `DeleteExecutor` -/
 
